@@ -158,6 +158,21 @@ fn configs(thorough: bool) -> Vec<Config> {
         ],
         coupled: false,
     });
+    // a sum resource and non-integer amounts: the fractional parts of what is free and of what comes back add up beyond one unit
+    out.push(Config {
+        name: "sumfrac",
+        desc: ResourceDescriptor::new(vec![ResourceDescriptorItem::sum("mem", 2)], Default::default()),
+        names: vec!["mem"],
+        requests: vec![
+            rq(&[("mem", "compact", 6_000)]),
+            rq(&[("mem", "compact", 7_000)]),
+            rq(&[("mem", "compact", 13_000)]),
+            rq(&[("mem", "compact", 5_000)]),
+            rq(&[("mem", "compact", 20_000)]),
+            rq(&[("mem", "all", 0)]),
+        ],
+        coupled: false,
+    });
     // very unequal groups
     out.push(Config {
         name: "groups26",
@@ -224,7 +239,9 @@ fn canon(a: &SimAllocator) -> String {
     // the live grants as a multiset: the order of allocation does not matter for the future
     let mut live: Vec<String> = a.live_handles().iter().map(|h| a.allocation_json(*h).to_string()).collect();
     live.sort();
-    format!("{}|{}", a.state_json()["pools"], live.join(";"))
+    // the whole state of the allocator, admission summary included (it mirrors the pools on correct code, so it adds no states
+    // there; if it ever drifts, the drifted state is a state of its own whose future is explored)
+    format!("{}|{}", a.state_json(), live.join(";"))
 }
 
 pub fn main(args: &[String]) -> i32 {
